@@ -7,13 +7,16 @@
 //!                   M x - v through the real dmul21_/fdmul21_ (M, v = A, b or A^T A, A^T b);
 //!                   prints the residual entries, then the entries of v
 //!     kind : 0 f64 | 1 Dual | 2 Dual2 (encodings of numenc.rs)
+//!     lsq  : bit 0 = allow_lsq; bits 1.. = MEMORY LAYOUT in which the same matrix A is handed to the library:
+//!            0 row-major (C order), 1 column-major (Fortran order, contiguous), 2 every other column of a wider array
+//!            (strided, not contiguous), 3 a row-reversed view (negative stride)
 //!   output = 2 (abort) | 0 n entry*(n), entry = re [gradient1(names)] [gradient2(names) row major]
 //!            followed, for kinds 1 and 2, by the marker -7 and per entry `nvars idx*` = the stored
 //!            variable order as indices into `names` (layout statistics only, never a verdict)
 use crate::cal::Rd;
 use crate::numenc::{read_dual, read_dual2, read_f, read_names};
 use crate::{f2i, guard, Ints};
-use ndarray::{Array1, Array2};
+use ndarray::{s, Array1, Array2, ArrayView2, ShapeBuilder};
 use num_traits::identities::Zero;
 use num_traits::Signed;
 use rateslib::dual::linalg::{dmul21_, dmul22_, dsolve, fdmul21_, fdsolve};
@@ -72,7 +75,40 @@ fn put_vec<T>(io: &Io<T>, names: &[String], xs: &[T]) -> Ints {
     out
 }
 
-fn run_t<T>(io: Io<T>, op: i128, lsq: bool, names: &[String], r: usize, c: usize, rd: &mut Rd) -> Ints
+/// the matrix `a` held in another memory layout; `view()` is the same r x c matrix
+enum Held<X> {
+    Plain(Array2<X>),
+    Strided(Array2<X>),
+    Rev(Array2<X>),
+}
+impl<X: Clone> Held<X> {
+    fn new(a: &Array2<X>, layout: i128) -> Self {
+        let (r, c) = a.dim();
+        match layout {
+            1 => {
+                let mut data = Vec::with_capacity(r * c);
+                for j in 0..c {
+                    for i in 0..r {
+                        data.push(a[[i, j]].clone());
+                    }
+                }
+                Held::Plain(Array2::from_shape_vec((r, c).f(), data).expect("shape"))
+            }
+            2 => Held::Strided(Array2::from_shape_fn((r, 2 * c), |(i, j)| a[[i, j / 2]].clone())),
+            3 if r > 0 => Held::Rev(Array2::from_shape_fn((r, c), |(i, j)| a[[r - 1 - i, j]].clone())),
+            _ => Held::Plain(a.clone()),
+        }
+    }
+    fn view(&self) -> ArrayView2<'_, X> {
+        match self {
+            Held::Plain(a) => a.view(),
+            Held::Strided(b) => b.slice(s![.., ..;2]),
+            Held::Rev(b) => b.slice(s![..;-1, ..]),
+        }
+    }
+}
+
+fn run_t<T>(io: Io<T>, op: i128, lsq: bool, layout: i128, names: &[String], r: usize, c: usize, rd: &mut Rd) -> Ints
 where
     T: PartialOrd + Signed + Clone + Sum + Zero,
     for<'a> &'a T: Sub<&'a T, Output = T> + Mul<&'a T, Output = T> + Div<&'a T, Output = T>,
@@ -87,17 +123,18 @@ where
     let b_ = Array1::from_vec(b);
     if f64_matrix {
         let a_ = Array2::from_shape_vec((r, c), af).expect("shape");
+        let h_ = Held::new(&a_, layout);
         match op {
             1 => guard(|| {
-                let x = fdsolve(&a_.view(), &b_.view(), lsq);
+                let x = fdsolve(&h_.view(), &b_.view(), lsq);
                 Ok(put_vec(&io, names, &x.to_vec()))
             }),
             3 => guard(|| {
-                let x = fdmul21_(&a_.view(), &b_.view());
+                let x = fdmul21_(&h_.view(), &b_.view());
                 Ok(put_vec(&io, names, &x.to_vec()))
             }),
             _ => guard(|| {
-                let x = fdsolve(&a_.view(), &b_.view(), lsq);
+                let x = fdsolve(&h_.view(), &b_.view(), lsq);
                 let (m, v) = if lsq {
                     (dmul22_::<f64>(&a_.t(), &a_.view()), fdmul21_(&a_.t(), &b_.view()))
                 } else {
@@ -112,13 +149,14 @@ where
         }
     } else {
         let a_ = Array2::from_shape_vec((r, c), at).expect("shape");
+        let h_ = Held::new(&a_, layout);
         match op {
             0 => guard(|| {
-                let x = dsolve(&a_.view(), &b_.view(), lsq);
+                let x = dsolve(&h_.view(), &b_.view(), lsq);
                 Ok(put_vec(&io, names, &x.to_vec()))
             }),
             2 => guard(|| {
-                let x = dmul21_(&a_.view(), &b_.view());
+                let x = dmul21_(&h_.view(), &b_.view());
                 Ok(put_vec(&io, names, &x.to_vec()))
             }),
             5 => guard(|| {
@@ -130,7 +168,7 @@ where
                 Ok(out)
             }),
             _ => guard(|| {
-                let x = dsolve(&a_.view(), &b_.view(), lsq);
+                let x = dsolve(&h_.view(), &b_.view(), lsq);
                 let (m, v) = if lsq {
                     (dmul22_(&a_.t(), &a_.view()), dmul21_(&a_.t(), &b_.view()))
                 } else {
@@ -151,22 +189,23 @@ pub fn run(_op: &str, a: &Ints) -> Ints {
     let op: i128 = _op.parse().expect("op");
     let mut rd = Rd::new(a);
     let kind = rd.next();
-    let lsq = rd.next() == 1;
+    let flags = rd.next();
+    let (lsq, layout) = (flags & 1 == 1, flags >> 1);
     let names = read_names(&mut rd);
     let r = rd.next() as usize;
     let c = rd.next() as usize;
     match kind {
         0 => run_t(
             Io::<f64> { read: rd_f64, write: out_f, layout: lay_f, has_layout: false },
-            op, lsq, &names, r, c, &mut rd,
+            op, lsq, layout, &names, r, c, &mut rd,
         ),
         1 => run_t(
             Io::<Dual> { read: read_dual, write: out_d, layout: lay_d, has_layout: true },
-            op, lsq, &names, r, c, &mut rd,
+            op, lsq, layout, &names, r, c, &mut rd,
         ),
         _ => run_t(
             Io::<Dual2> { read: read_dual2, write: out_d2, layout: lay_d2, has_layout: true },
-            op, lsq, &names, r, c, &mut rd,
+            op, lsq, layout, &names, r, c, &mut rd,
         ),
     }
 }
